@@ -343,12 +343,126 @@ def r5(db, rep):
                    f"(e.g. stay in registers under a direct eval)", loc=f.span)
 
 
+def _reads(f, adt_short, field, blocks=None):
+    """blocks of f that read `<adt_short>.<field>` (place projection) or call its getter `<adt_short>::<field>`"""
+    out = set()
+    want = adt_short + "." + field
+    for b in (blocks if blocks is not None else f.reachable()):
+        for s in f.blocks[b]["s"]:
+            r = s["r"]
+            k = r.get("k")
+            places = []
+            if k in ("use", "cast", "un", "repeat") and r["o"][0] in ("c", "m"):
+                places.append(r["o"][1])
+            elif k in ("ref", "discr", "rawptr", "len") and "p" in r:
+                places.append(r["p"])
+            elif k == "agg":
+                places += [o[1] for o in r["ops"] if o[0] in ("c", "m")]
+            elif k == "bin":
+                places += [o[1] for o in (r["a"], r["b"]) if o[0] in ("c", "m")]
+            for pl in places:
+                if any(x.endswith(want) for x in place_fields(pl)):
+                    out.add(b)
+        t = f.blocks[b]["t"]
+        if t["t"] == "call" and cn(t) == adt_short + "::" + field:
+            out.add(b)
+        if t["t"] == "switch" and t["o"][0] in ("c", "m") and any(x.endswith(want) for x in place_fields(t["o"][1])):
+            out.add(b)
+    return out
+
+
+def r6(db, rep):
+    rep.rule("R6", "contains(node, DirectEval) — which decides whether the bindings of the enclosing scopes must leave their "
+                   "registers — sees every place a direct eval can hide: each function-like node with a contains_direct_eval "
+                   "flag is traversed by default, or its ContainsVisitor override consults the flag or descends; every "
+                   "ClassElement variant with an initializer / body is descended into")
+    imp = [i for i in db.impls if "ContainsVisitor" in i["self"] and (i.get("trait") or "").endswith("visitor::Visitor")]
+    if not rep.anchor("R6", "impl Visitor for contains::ContainsVisitor", imp):
+        return
+    methods = [db.fns[x] for x in imp[0]["items"] if x in db.fns]
+    rep.floor("R6", "ContainsVisitor overrides", len(methods), 20)
+    carriers = {}
+    for k, a in db.adts.items():
+        if not k.startswith("boa_ast::"):
+            continue
+        fs = [fl["n"] for v in a["variants"] for fl in v["fields"]]
+        if "contains_direct_eval" in fs and "parameters" in fs:
+            carriers[k] = k.split("::")[-1]
+    rep.floor("R6", "function-like AST nodes carrying contains_direct_eval", len(carriers), 12)
+
+    def arg_ty(f):
+        return f.locals[2].replace("&'ast ", "").replace("&", "").strip() if f.rec["argc"] >= 2 else ""
+
+    enums = {k: a for k, a in db.adts.items() if a["kind"] == "enum" and k.startswith("boa_ast::")}
+    for T, short_T in sorted(carriers.items()):
+        handlers = []
+        for f in methods:
+            at = arg_ty(f)
+            if at == T:
+                handlers.append((f, None))
+            elif at in enums:
+                for vi, v in enumerate(enums[at]["variants"]):
+                    if any(fl["ty"] == T for fl in v["fields"]):
+                        handlers.append((f, (at, vi, v["name"])))
+        if not handlers:
+            rep.ob("R6", f"{short_T}:default-traversal", True, "", loc=db.adts[T]["span"])
+            continue
+        for f, via in handlers:
+            consult = _reads(f, short_T, "contains_direct_eval")
+            descends = [b for b, t in f.calls() if (callee(t) or "").startswith("<" + T + " as boa_ast::visitor::VisitWith")]
+            rep.ob("R6", f"{short_T}:{f.name}:eval-flag-consulted", bool(consult or descends),
+                   f"ContainsVisitor::{f.name} handles {short_T} without reading its contains_direct_eval flag and without "
+                   f"descending into it: a direct eval inside such a function is invisible to the enclosing function, whose "
+                   f"locals stay in registers (the eval then reads a missing environment: panic / wrong binding)", loc=f.span)
+    # class elements that are not functions of their own flag: initializers and static blocks
+    ce = "boa_ast::function::class::ClassElement"
+    fs = [f for f in methods if arg_ty(f) == ce]
+    if not rep.anchor("R6", "ContainsVisitor::visit_class_element", fs) or not rep.anchor("R6", "enum ClassElement", enums.get(ce)):
+        return
+    f = fs[0]
+    sw = None
+    for sb in f._rpo():
+        tt = f.blocks[sb]["t"]
+        if tt["t"] != "switch":
+            continue
+        ll = op_local(tt["o"])
+        d = f.single_def(ll) if ll is not None else None
+        if d and d[1] != "t" and d[2].get("k") == "discr" and d[2]["p"][0] == 2:
+            sw = (sb, tt)
+            break
+    if not rep.anchor("R6", "match on the ClassElement variant in visit_class_element", sw):
+        return
+    sb, tt = sw
+    nv = 0
+    for vi, v in enumerate(enums[ce]["variants"]):
+        if not v["fields"]:
+            continue
+        P = v["fields"][0]["ty"]
+        padt = db.adts.get(P)
+        if not padt:
+            continue
+        pf = [fl["n"] for fl in padt["variants"][0]["fields"]]
+        want = "contains_direct_eval" if "contains_direct_eval" in pf else "initializer" if "initializer" in pf \
+            else "body" if "body" in pf else None
+        if want is None:
+            continue
+        nv += 1
+        tgt = tt["tgts"][tt["vals"].index(str(vi))] if str(vi) in tt["vals"] else tt["tgts"][-1]
+        arm = f.reach_from([tgt], avoid={sb})
+        ok = bool(_reads(f, P.split("::")[-1], want, blocks=arm))
+        rep.ob("R6", f"ClassElement::{v['name']}:{want}-visited", ok,
+               f"ContainsVisitor::visit_class_element never looks at the {want} of ClassElement::{v['name']}: a direct eval "
+               f"there (`class C {{ static x = eval(\"local\") }}`) is invisible to the enclosing function", loc=f.span)
+    rep.floor("R6", "ClassElement variants that can hold a direct eval", nv, 6)
+
+
 def run(db, rep, tier):
     r1(db, rep)
     r2(db, rep)
     r3(db, rep)
     r4(db, rep)
     r5(db, rep)
+    r6(db, rep)
     rep.assumptions += [
         "BytecodeEmitter::emit_* functions do not compile expressions (checked through the bytecompiler call graph)",
     ]
